@@ -16,7 +16,7 @@ RULE = ("executable programs over the native gate set with aliases-of-aliases an
 ASSUMPTIONS = ["statement-level queries on busy gates are made through the circuit only",
                "reference used set = syntactic reachability through macros, loops of any count, nested blocks, aliases, lets; busy = all qubits, idle = none"]
 TIERS = {"quick": {"shards": 8, "budget_s": 80}, "thorough": {"shards": 16, "budget_s": 360}}
-REQUIRE = {"macro-bodies-analysed-in-call-site-scope": 300, "gate-set:Ad": 500, "overlap:ref-yes": 100, "overlap:ref-no": 300, "used-circuit-compared": 500, "used-statement-compared": 500,
+REQUIRE = {"macro-bodies-analysed-in-a-second-call-site-scope": 100, "macro-bodies-analysed-in-call-site-scope": 300, "gate-set:Ad": 500, "overlap:ref-yes": 100, "overlap:ref-no": 300, "used-circuit-compared": 500, "used-statement-compared": 500,
            "permutations-compared": 100, "merge-decisions-observed": 500, "idle-beside-active": 10}
 
 MERGE_LOG = []
@@ -110,26 +110,12 @@ def judge(case):
         exp_s = ref_used_of_tree(Ps, Ps.root, regname)
         if got != exp_s:
             fails.append(("used-set-differs:statement", {"expected": exp_s, "got": got}))
-        elif type(stmt).__name__ == "GateStatement" and type(stmt.gate_def).__name__ == "Macro":
-            # the statements of the macro body analysed one by one in the scope of THIS call site
-            # (get_used_qubit_indices(stmt, context={parameter: argument})): together they use what the call uses
-            ctxd = dict(stmt.parameters)
-            union = {}
-            ok = True
-            for bs in stmt.gate_def.body.statements:
-                ob = lib.outcome(lib.used_qubits, bs, ctxd)
-                if ob[0] != "ok":
-                    fails.append(("used-qubits-raised-on-macro-body-statement:" + ob[1], {"error": ob[2], "macro": stmt.name}))
-                    ok = False
-                    break
-                for k_, v_ in as_sets(ob[1]).items():
-                    union.setdefault(k_, set()).update(v_)
-            if ok:
-                info["used_ctx"] = info.get("used_ctx", 0) + 1
-                union = {k_: v_ for k_, v_ in union.items() if v_}
-                if union != exp_s:
-                    fails.append(("used-set-differs:macro-body-in-call-site-scope", {"expected": exp_s, "got": union, "macro": stmt.name}))
             break
+    if not fails:
+        try:
+            call_site_scopes(s, regname, fails, info)
+        except M.OracleError as ex:
+            return "inconclusive:oracle:%s" % ex, fails, info
     # (b) emulator acceptance vs overlap
     try:
         scan = P.flat_scan()
@@ -185,6 +171,57 @@ def judge(case):
     return "ok", fails, info
 
 
+def macro_calls(block):
+    """Every statement of the body (at any depth, not inside macro definitions) that calls a macro."""
+    out = []
+
+    def walk(x):
+        n = type(x).__name__
+        if n == "GateStatement":
+            if type(x.gate_def).__name__ == "Macro":
+                out.append(x)
+        elif n == "LoopStatement":
+            walk(x.statements)
+        elif n == "BlockStatement":
+            for y in x.statements:
+                walk(y)
+
+    walk(block)
+    return out
+
+
+def call_site_scopes(s, regname, fails, info):
+    """The statements of a macro body analysed one by one in the scope of EACH call site
+    (get_used_qubit_indices(stmt, context={parameter: argument})): together they use what that call uses."""
+    seen = {}
+    for call in macro_calls(s.c.body):
+        try:
+            t = M.full_meaning(_stmt_core(s, call), env={})
+        except (M.MeaningError, M.OracleError):
+            continue
+        Ps = refexec.Program(t if t[0] in ("seq", "par", "loop", "gate") else ("seq", (t,)), s.n)
+        if any(leaf.name in ("prepare_all", "measure_all") for leaf in Ps.leaves):
+            continue
+        exp_s = ref_used_of_tree(Ps, Ps.root, regname)
+        ctxd = dict(call.parameters)
+        union = {}
+        for bs in call.gate_def.body.statements:
+            ob = lib.outcome(lib.used_qubits, bs, ctxd)
+            if ob[0] != "ok":
+                fails.append(("used-qubits-raised-on-macro-body-statement:" + ob[1], {"error": ob[2], "macro": call.name}))
+                return
+            for k_, v_ in as_sets(ob[1]).items():
+                union.setdefault(k_, set()).update(v_)
+        info["used_ctx"] = info.get("used_ctx", 0) + 1
+        key = tuple(id(v) for v in call.parameters.values())
+        if seen.setdefault(call.name, key) != key:
+            info["used_ctx_second_site"] = info.get("used_ctx_second_site", 0) + 1
+        union = {k_: v_ for k_, v_ in union.items() if v_}
+        if union != exp_s:
+            fails.append(("used-set-differs:macro-body-in-call-site-scope", {"expected": exp_s, "got": union, "macro": call.name}))
+            return
+
+
 def _stmt_core(s, stmt):
     """Core tree whose body is the single IR statement stmt (declarations shared)."""
     from jaqalpaq.core import Circuit
@@ -237,6 +274,7 @@ def process(ctx, case, seen):
     rec.count("used-circuit-compared", info.get("used_circuit", 0))
     rec.count("used-statement-compared", info.get("used_stmt", 0))
     rec.count("macro-bodies-analysed-in-call-site-scope", info.get("used_ctx", 0))
+    rec.count("macro-bodies-analysed-in-a-second-call-site-scope", info.get("used_ctx_second_site", 0))
     rec.count("merge-decisions-observed", info.get("merge", 0))
     rec.count("merge-decisions-disjoint-mode", info.get("merge_disjoint", 0))
     rec.count("merge-rejections-observed", info.get("merge_rejections", 0))
@@ -278,9 +316,11 @@ def shard(ctx):
         i += 1
         rng = ctx.rng
         size = rng.choice([2, 3, 3, 4, 4, 5])
-        g = gen.ExecGen(rng, reg_size=(size, size), max_depth=rng.choice([2, 3]), body_len=(1, 3), n_maps=(0, 4),
-                        n_macros=(0, 3), p_overlap=rng.choice([0.0, 0.0, 0.3, 0.6]), p_idle=0.4, p_let_reg=0.25,
-                        p_let_index=0.4)
+        regm = rng.random() < 0.3  # bias to macros with a register parameter, called with several registers / aliases
+        g = gen.ExecGen(rng, reg_size=(size, size), max_depth=rng.choice([2, 3]), body_len=(1, 3) if not regm else (3, 6),
+                        n_maps=(0, 4) if not regm else (2, 4), n_macros=(0, 3) if not regm else (1, 3),
+                        p_overlap=rng.choice([0.0, 0.0, 0.3, 0.6]), p_idle=0.4, p_let_reg=0.25,
+                        p_let_index=0.4, p_reg_macro=0.7 if regm else 0.15)
         prog = g.program()
         case = {"prog": prog, "permseed": rng.randrange(1 << 20)}
         if rng.random() < 0.3:
